@@ -160,7 +160,7 @@ theorem nonreport_keeps_bounds (c : Conv) (s : MState) (ev : MEvent) (h : ∀ t,
   | set v n =>
     simp only [stepM]
     split
-    · exact ⟨rfl, rfl⟩
+    · split <;> exact ⟨rfl, rfl⟩
     · split
       · next r _ =>
         have := attempt_keeps_bounds
@@ -254,7 +254,9 @@ theorem stepM_ok (c : Conv) (s : MState) (h : CallOK s) (ev : MEvent) :
   | set v n =>
     simp only [stepM]
     split
-    · exact ⟨h, fun o ho => by cases ho⟩
+    · split
+      · exact ⟨h, fun o ho => by cases ho⟩
+      · exact ⟨h, fun o ho r' lo hi cl ch he => by simp at ho; subst ho; cases he⟩
     · split
       · next r hd =>
         obtain ⟨_, hlo, hhi, _, _, _⟩ := accepted c s.held v r 0 hd
@@ -283,6 +285,25 @@ theorem tx_in_range_at_call (c : Conv) : ∀ (evs : List MEvent) (s : MState), C
     rcases List.mem_append.mp ho with ho | ho
     · exact hout o ho
     · exact ih _ hs1 o ho
+
+/-- **rejected_set_inert_while_pending**: a second `set` that is refused while a call is in flight
+changes NOTHING — not the held triple, not the pending flag, and not the value the call in flight
+will re-assert and transmit on its next attempts (what seeded change C06-m5 breaks) -/
+theorem rejected_set_inert_while_pending (c : Conv) (s : MState) (k : Call) (hk : s.call = some k)
+    (v : PyVal) (n : Nat) (hrej : ParamSet.decide c s.held v = .reject) :
+    stepM c s (.set v n) = (s, [.decided .reject]) ∧
+    (s.pending = true → 0 < k.left →
+      (stepM c (stepM c s (.set v n)).1 .tick).2 = [.tx k.r k.lo k.hi s.held.min s.held.max]) := by
+  have h1 : stepM c s (.set v n) = (s, [.decided .reject]) := by simp only [stepM, hk, hrej]
+  refine ⟨h1, fun hp hl => ?_⟩
+  rw [h1]
+  simp only [stepM, attempt, hk, hp]
+  have : ¬ k.left = 0 := by omega
+  simp [this]
+
+example : (runM ⟨.plain, 1, 1, 0, 6⟩ ⟨⟨10, 0, 100⟩, false, 0, none⟩
+    [.set (.int 42) 2, .set (.int 150) 1, .tick]).2 =
+      [.decided (.transmit 42), .tx 42 0 100 0 100, .decided .reject, .tx 42 0 100 0 100] := by decide
 
 /-- the full second sentence of C06 over histories: every transmitted set request lies within the
 bounds the controller LAST reported before the transmission (the ghost fields `curLo`,`curHi`) -/
